@@ -25,7 +25,7 @@ type machineUse struct {
 // c09Run1 runs a session on a fresh VM; after every statement the operand
 // stack, frame stack, closure stack and live context set must be empty again.
 // It also measures the peak stack use, sampled at every instruction.
-func c09Run1(stmts []string, fuel int) (sig, detail string, use machineUse, skipped bool) {
+func c09Run1(stmts []string, fuel int, noResult bool) (sig, detail string, use machineUse, skipped bool) {
 	s := impl.NewSession()
 	s.Step = func(v *vm.Type, info vm.VerifStepInfo) {
 		st := info.M.VerifState()
@@ -49,7 +49,12 @@ func c09Run1(stmts []string, fuel int) (sig, detail string, use machineUse, skip
 			return "harness:generated-program-does-not-parse", fmt.Sprintf("statement %d `%s`: %s%s%s", i, src, pr.Err, pr.Panic, pr.FuelOut), use, false
 		}
 		for _, t := range pr.Trees {
-			r := s.RunTree(t, fuel)
+			var r impl.StmtResult
+			if noResult {
+				r = s.RunTreeNoResult(t, fuel) // compiled and run as file mode does: result discarded
+			} else {
+				r = s.RunTree(t, fuel)
+			}
 			use.Steps += r.Steps
 			if r.Panic != "" || r.FuelOut {
 				return "", "", use, true // crashes and hangs are C05's subject
@@ -86,19 +91,20 @@ func c09Run1(stmts []string, fuel int) (sig, detail string, use machineUse, skip
 }
 
 type c09Item struct {
-	Kind string   `json:"kind"` // residue | scaling
-	A    []string `json:"a"`
-	B    []string `json:"b,omitempty"`
-	NA   int      `json:"na,omitempty"`
-	NB   int      `json:"nb,omitempty"`
+	Kind  string   `json:"kind"` // residue | scaling
+	A     []string `json:"a"`
+	B     []string `json:"b,omitempty"`
+	NoRes bool     `json:"file_mode,omitempty"` // compile with ByteCodeNoStck / Run(false), as file mode does
+	NA    int      `json:"na,omitempty"`
+	NB    int      `json:"nb,omitempty"`
 }
 
 func c09Judge(it c09Item) (sig, detail string, skipped bool) {
-	sig, detail, ua, skipped := c09Run1(it.A, 3000000)
+	sig, detail, ua, skipped := c09Run1(it.A, 3000000, it.NoRes)
 	if sig != "" || skipped || it.Kind == "residue" {
 		return sig, detail, skipped
 	}
-	sig, detail, ub, skipped := c09Run1(it.B, 6000000)
+	sig, detail, ub, skipped := c09Run1(it.B, 6000000, it.NoRes)
 	if sig != "" || skipped {
 		return sig, detail, skipped
 	}
@@ -112,7 +118,7 @@ func init() {
 	core.Register(&core.Check{
 		ID:    "C09",
 		Level: "exploration",
-		Rule: "(a) residue: every statement form (constants, computed expressions, calls, assignments, if with constant / computed / failing condition and constant / computed / returning branches, if-else, nested while and for, blocks, yield, return, function literals, output) in every statement context (used / discarded, then / else, while / for body, function tail / non-tail, generator body) and the generator x body x placement loops of C02 (early returns from nested loops included): after every statement the hooks must read sp = 0, no frames, no closure frames, no live contexts, ip at end of code; " +
+		Rule: "every item is compiled and run both ways, with the result used (REPL, -eval) and discarded (file mode); (a) residue: every statement form (constants, computed expressions, calls, assignments, if with constant / computed / failing condition and constant / computed / returning branches, if-else, nested while and for, blocks, yield, return, function literals, output) in every statement context (used / discarded, then / else, while / for body, function tail / non-tail, generator body) and the generator x body x placement loops of C02 (early returns from nested loops included): after every statement the hooks must read sp = 0, no frames, no closure frames, no live contexts, ip at end of code; " +
 			"(b) scaling: every statement form as the body (last, or discarded mid-block) of every loop driver (while / for, used / discarded, nested, in a function, at top level, inside a generator, calling a function that returns from an inner loop) run with 5 and with 300 (thorough: 600) iterations: peak operand stack of main and generator contexts, peak live contexts and stack length must not grow. distinct = distinct session (pair); non-trivial = sessions that ran to the end without crash or fuel exhaustion",
 		Assumptions: []string{"read-only hooks: memory.VerifState, vm.VerifLiveContexts, vm.VerifMainIP, vm step callback", "sessions that crash or exhaust their fuel are C05's subject and skipped here"},
 		Exec: func(payload string) (string, string) {
@@ -144,6 +150,7 @@ func c09Forms() []T {
 		ForN([]string{"j", "m"}, []T{Call("fromto", I(0), I(2)), Call("lit")}, Bin("+", N("j"), N("m"))),
 		For("j", Call("fromto", I(0), I(3)), For("m", Call("lit"), If(Bin("==", N("m"), I(2)), N("m")))),
 		Yld(I(5)), Yld(Bin("+", N("gi"), I(1))), Asg("h", Fn(Ps("p"), N("p"))), Call("write", S("")), Call("toa", N("gi")),
+		Ret(I(5)), Ret(Bin("+", N("gi"), I(1))), If(c, Ret(I(5))), For("j", Call("fromto", I(0), I(5)), If(Bin("==", N("j"), I(3)), Ret(N("j")))), Wh(c, Ret(Call("id", I(5)))),
 		Blk(I(5), I(6)), Blk(Bin("+", N("gi"), I(1)), Call("id", I(5))), Call("retin"), Call("retinb"), Asg("x", Call("retin")),
 	}
 }
@@ -195,7 +202,7 @@ func c09Run(w *core.W) {
 	impl.Init()
 	pre := c09Prelude()
 	emit := func(it c09Item) bool {
-		key := it.Kind + "\x00" + keyOf(it.A) + "\x00" + keyOf(it.B)
+		key := fmt.Sprint(it.Kind, it.NoRes) + "\x00" + keyOf(it.A) + "\x00" + keyOf(it.B)
 		if !w.Mine(key) {
 			return true
 		}
@@ -216,7 +223,7 @@ func c09Run(w *core.W) {
 	w.Family("residue: form x statement context")
 	for _, f := range c09Forms() {
 		for _, sc := range stmtContexts() {
-			if !emit(c09Item{Kind: "residue", A: text(sc.F(f))}) {
+			if !emit(c09Item{Kind: "residue", A: text(sc.F(f))}) || !emit(c09Item{Kind: "residue", A: text(sc.F(f)), NoRes: true}) {
 				return
 			}
 		}
@@ -244,7 +251,8 @@ func c09Run(w *core.W) {
 	}
 	for _, f := range c09Forms() {
 		for _, d := range c09Drivers() {
-			if !emit(c09Item{Kind: "scaling", A: text(d.F(5, f)), B: text(d.F(big, f)), NA: 5, NB: big}) {
+			if !emit(c09Item{Kind: "scaling", A: text(d.F(5, f)), B: text(d.F(big, f)), NA: 5, NB: big}) ||
+				!emit(c09Item{Kind: "scaling", A: text(d.F(5, f)), B: text(d.F(big, f)), NA: 5, NB: big, NoRes: true}) {
 				return
 			}
 		}
